@@ -845,6 +845,8 @@ name.retain(|c: char| -> (keep: bool) ensures keep == not_nul(c) {\g<1> });
 // Label (BIFF5-style inline string cell)
 // =====================================================================================================
 /// [MS-XLS] 2.5.294 XLUnicodeString: cch (2 bytes), then in BIFF8 a flags byte whose bit 0 is fHighByte, then the characters
+/// bytes in front of the characters: cch (2), plus the flags byte in BIFF8
+pub open spec fn xl_string_header_len(biff: Biff) -> int { if biff is Biff8 { 3 } else { 2 } }
 pub open spec fn xl_string_chars(d: Seq<u8>, encoding: XlsEncoding, biff: Biff) -> Seq<char> {
     if biff is Biff8 { decoded_chars(encoding, d.skip(3), u16_at(d, 0), Some(d[2] & 1 != 0)) }
     else { decoded_chars(encoding, d.skip(2), u16_at(d, 0), None) }
@@ -854,9 +856,9 @@ pub open spec fn xl_string_chars(d: Seq<u8>, encoding: XlsEncoding, biff: Biff) 
 //@@ sig
     ensures
         //# C02.string_len_guard
-        r@.len() < 4 <==> res is Err,
+        r@.len() < xl_string_header_len(biff) <==> res is Err,
         //# C02.string_len_err
-        r@.len() < 4 ==> is_len_err(res, 4, r@.len() as int),
+        r@.len() < xl_string_header_len(biff) ==> is_len_err(res, xl_string_header_len(biff), r@.len() as int),
         //# C02.string_value
         res is Ok ==> res->Ok_0@ == xl_string_chars(r@, *encoding, biff),
 //@@ body
@@ -869,7 +871,7 @@ pub open spec fn xl_string_chars(d: Seq<u8>, encoding: XlsEncoding, biff: Biff) 
 //@@ sig
     ensures
         //# C02.label_len_guard
-        r@.len() < 10 <==> res is Err,
+        r@.len() < 6 + xl_string_header_len(biff) <==> res is Err,
         //# C02.label_len_err
         r@.len() < 6 ==> is_len_err(res, 6, r@.len() as int),
         //# C02.label_pos
